@@ -310,7 +310,11 @@ def runSess (scriptPath transcriptPath : String) : IO Unit := do
       idx := idx + 1
       continue
     let blk := orcs.getD idx {}
-    match parseOp w.ck blk.input (words line) with
+    -- `waitto T`: sleep until the transcript clock reads T (no-op when it already does); the rest of the grammar is stateless
+    let toks := match words line with
+      | ["waitto", t] => ["wait", toString (max 0 (parseInt t - w.st.now))]
+      | ws => ws
+    match parseOp w.ck blk.input toks with
     | none =>
       out.putStrLn ("fatal unknown op " ++ line)
       return
